@@ -543,3 +543,24 @@ Print Assumptions C08_scan_sites_total_closed.
 Print Assumptions C08_readfrom_sites_total_closed.
 Print Assumptions C08_read_effects_translated.
 Print Assumptions C08_registry_roundtrip_translated.
+
+(* ================================================================ phase 7: allocations sized by the peer *)
+From GoMC Require Import Proofs.C08_alloc.
+
+(* the census of the covered packages (level, level/component, registry, chat/sign, yggdrasil/user,
+   bot and its modules, server, server/auth, server/command), regenerated from the tree on every run:
+   every make / reflect.MakeSlice / Grow / append-in-a-counted-loop whose size mentions a value READ
+   FROM THE PEER earlier in the function is dominated by a test bounding the size from above (a
+   constant, what is present, the labels of a switch, min(.., K), or one successful read per appended
+   element) and - unless it is such an append - by a test excluding a negative size; the only rows
+   without are the ones named in c08_alloc_open (empty: the four findings of phase 7 are repaired; each site of the census is measured on the implementation by the child-process stream of the
+   harness, classes C08.oom.<site>) *)
+Theorem C08_alloc_sites_bounded : forall r, In r c08_alloc_sites -> a_origin r = OPeer ->
+  (a_upper r <> BNone /\ (a_lower r <> String.EmptyString \/ exists c, a_upper r = BRead c))
+  \/ In (a_site r) c08_alloc_open.
+Proof. exact alloc_sites_bounded. Qed.
+(* no row is excused *)
+Example C08_ex_alloc_open : c08_alloc_open = [].
+Proof. reflexivity. Qed.
+
+Print Assumptions C08_alloc_sites_bounded.
